@@ -956,6 +956,18 @@ func (sc *scenario) explore(c *fw.Ctx, a *acc, w *dbworld, r *rand.Rand, nMulti 
 				}
 				sc.runLabelled(c, a, k, trusted, tam, &label, signed)
 			}
+			// self-consistent forgeries (l3forge.go)
+			var fgs []forgery
+			switch sc.name {
+			case "VerifiedGet":
+				fgs = getForgeries()
+			case "VerifiedTxByID":
+				fgs = txForgeries()
+			}
+			for _, fg := range fgs {
+				label := fg.name
+				sc.runLabelled(c, a, k, trusted, fg.apply, &label, signed)
+			}
 		}
 	}
 	_ = r
